@@ -1,4 +1,185 @@
-/- Driver for C13 (stub: not built yet). -/
+/-
+Driver for C13: runs a history of calls on one series transformer through the model.
+
+  hist <cfg> <shift> <op> <op> ...
+
+cfg   des:<sp>:<A|M> | cdes:<sp>:<A|M> | det:<degree> | bc | log | ad:<T|F> | hampel:<w>:<nsigma>:<k>
+      | pass:<T|F>:<cfg>
+op    fit;<inp>;<seasonal|none>;<N|T|F>;<ok|E:kind>
+      upd;<inp>;<D|T|F>
+      tr;<inp>;<aux|none>
+      inv;<inp>;<k|->;<aux|none>          (k: use the series returned by op k when it returned one)
+      ft;<inp>;<seasonal|none>;<N|T|F>;<ok|E:kind>;<aux|none>
+inp   s:<labels>:<values> | notseries | fidx
+out   one token per op: ok | E:kind | <labels>:<values>;  if shift ≠ 0 the same history with all
+      labels shifted follows after `##`.
+-/
+import SkVerif.Model.SeriesTransform
+import SkVerif.Drv.Parse
 namespace SkVerif.Drv.C13
-def handle (_toks : List String) : String := "bad-op"
+open SkVerif SkVerif.ST SkVerif.Drv
+
+def showErr : Err → String
+  | .value => "E:value" | .type => "E:type" | .notimpl => "E:notimpl" | .notfitted => "E:notfitted"
+  | .attr => "E:attr" | .key => "E:key" | .other => "E:other" | .nodata => "E:nodata"
+
+def parseErr? : String → Option Err
+  | "E:value" => some .value | "E:type" => some .type | "E:notimpl" => some .notimpl
+  | "E:notfitted" => some .notfitted | "E:attr" => some .attr | "E:key" => some .key
+  | "E:other" => some .other
+  | _ => none
+
+def showSeries (z : Series) : String := s!"{showIntList (labels z)}:{showORatList (values z)}"
+
+def showOut : Out → String
+  | .ok => "ok"
+  | .err e => showErr e
+  | .ser z => showSeries z
+
+def parseInput? (s : String) : Option Input :=
+  match s.splitOn ":" with
+  | ["notseries"] => some .notSeries
+  | ["fidx"] => some .floatIndex
+  | ["s", ls, vs] => do
+      let ls ← parseIntList? ls
+      let vs ← parseORatList? vs
+      if ls.length ≠ vs.length then none else pure (.series (ls.zip vs))
+  | _ => none
+
+partial def parseCfg? (parts : List String) : Option TState :=
+  match parts with
+  | ["des", sp, m] => do
+      let sp ← parseNat? sp
+      let m ← (if m == "A" then some false else if m == "M" then some true else none)
+      if sp = 0 then none else pure (.des { sp := sp, mult := m, cond := false })
+  | ["cdes", sp, m] => do
+      let sp ← parseNat? sp
+      let m ← (if m == "A" then some false else if m == "M" then some true else none)
+      if sp = 0 then none else pure (.des { sp := sp, mult := m, cond := true })
+  | ["det", d] => do
+      let d ← parseNat? d
+      if d > 1 then none else pure (.det { degree := d })
+  | ["bc"] => some (.col { kind := .boxcox })
+  | ["log"] => some (.col { kind := .log })
+  | ["ad", h] => do
+      let h ← parseBool? h
+      pure (.col { kind := .adaptor h })
+  | ["hampel", w, ns, k] => do
+      let w ← parseNat? w
+      let ns ← parseRat? ns
+      let k ← parseRat? k
+      pure (.hampel ⟨w, ns, k⟩ false)
+  | "pass" :: flag :: rest => do
+      let flag ← parseBool? flag
+      let inner ← parseCfg? rest
+      pure (.pass inner inner false flag false)
+  | _ => none
+
+/-- an operation as written on the line (input not yet resolved) -/
+structure RawOp where
+  kind : String
+  inp : Input
+  ref : Option Nat := none
+  d : FitData := {}
+  up : Option Bool := none
+  aux : Option (List Val) := none
+
+def parseSeasonal? (s : String) : Option (Option (List Rat)) :=
+  if s == "none" then some none else (parseRatList? s).map some
+
+def parseIsSeasonal? (s : String) : Option (Option Bool) :=
+  if s == "N" then some none else (parseBool? s).map some
+
+def parseFitErr? (s : String) : Option (Option Err) :=
+  if s == "ok" then some none else (parseErr? s).map some
+
+def parseAux? (s : String) : Option (Option (List Val)) :=
+  if s == "none" then some none else (parseORatList? s).map some
+
+def parseOp? (s : String) : Option RawOp :=
+  match s.splitOn ";" with
+  | ["fit", inp, seas, iss, fe] => do
+      let inp ← parseInput? inp
+      let seas ← parseSeasonal? seas
+      let iss ← parseIsSeasonal? iss
+      let fe ← parseFitErr? fe
+      pure { kind := "fit", inp := inp, d := ⟨seas, iss, fe⟩ }
+  | ["upd", inp, up] => do
+      let inp ← parseInput? inp
+      let up ← (if up == "D" then some none else (parseBool? up).map some)
+      pure { kind := "upd", inp := inp, up := up }
+  | ["tr", inp, aux] => do
+      let inp ← parseInput? inp
+      let aux ← parseAux? aux
+      pure { kind := "tr", inp := inp, aux := aux }
+  | ["inv", inp, ref, aux] => do
+      let inp ← parseInput? inp
+      let ref ← (if ref == "-" then some none else (parseNat? ref).map some)
+      let aux ← parseAux? aux
+      pure { kind := "inv", inp := inp, ref := ref, aux := aux }
+  | ["ft", inp, seas, iss, fe, aux] => do
+      let inp ← parseInput? inp
+      let seas ← parseSeasonal? seas
+      let iss ← parseIsSeasonal? iss
+      let fe ← parseFitErr? fe
+      let aux ← parseAux? aux
+      pure { kind := "ft", inp := inp, d := ⟨seas, iss, fe⟩, aux := aux }
+  | _ => none
+
+def inputValues : Input → List Val
+  | .series z => values z
+  | _ => []
+
+/-- the library function for this call: defined (by the supplied table) only on the values it was
+evaluated on by the harness -/
+def tableFn (key : List Val) (aux : Option (List Val)) : List Val → List Val :=
+  fun xs => match aux with
+    | some a => if xs == key then a else []
+    | none => []
+
+def resolve (c : Int) (outs : Array Out) (r : RawOp) : Input :=
+  match r.ref with
+  | some k => match outs[k]? with
+    | some (.ser z) => .series z
+    | _ => shiftInput c r.inp
+  | none => shiftInput c r.inp
+
+def toOp (r : RawOp) (inp : Input) : Option Op :=
+  let f := tableFn (inputValues inp) r.aux
+  match r.kind with
+  | "fit" => some (.fit inp r.d)
+  | "upd" => some (.update inp r.up)
+  | "tr" => some (.transform inp f)
+  | "inv" => some (.inverse inp f)
+  | "ft" => some (.fitTransform inp r.d f)
+  | _ => none
+
+def runHist (c : Int) (st0 : TState) (ops : List RawOp) : Option (List Out) :=
+  let rec go (st : TState) (outs : Array Out) : List RawOp → Option (List Out)
+    | [] => some outs.toList
+    | r :: rs =>
+      match toOp r (resolve c outs r) with
+      | none => none
+      | some op =>
+        let res := step polyReg st op
+        go res.1 (outs.push res.2) rs
+  go st0 #[] ops
+
+def showOuts (os : List Out) : String := " ".intercalate (os.map showOut)
+
+def handle (toks : List String) : String :=
+  match toks with
+  | "hist" :: cfg :: shift :: ops =>
+    match parseCfg? (cfg.splitOn ":"), parseInt? shift, ops.mapM parseOp? with
+    | some st, some c, some ops =>
+      match runHist 0 st ops with
+      | none => "bad-op"
+      | some o1 =>
+        if c = 0 then showOuts o1
+        else match runHist c st ops with
+          | none => "bad-op"
+          | some o2 => showOuts o1 ++ " ## " ++ showOuts o2
+    | _, _, _ => "bad-op"
+  | _ => "bad-op"
+
 end SkVerif.Drv.C13
